@@ -1119,6 +1119,17 @@ def rule_r11(prog, res):
     res.floor('R11', 'uses of derived facet caches', n, 1)
 
 
+def rule_r14(prog, res):
+    from . import c08
+    from ..report import Result
+    txt = ('range checks run on the instant the literal denotes: offset '
+           'sign and lexical patterns (C08-R4, C08-R11)')
+    res.share('R14', txt, 'C08', c08.rule_r4, prog, Result)
+    res.share('R14', txt, 'C08', c08.rule_r11, prog, Result)
+    from . import c17
+    res.share('R14', txt, 'C17', c17.rule_clean_tree, prog, Result)
+
+
 def rule_r12(prog, res):
     from . import c12
     from ..report import Result
@@ -1205,6 +1216,7 @@ def run(prog, res, tier):
     res.run_rule(rule_r11, prog, res)
     res.run_rule(rule_r12, prog, res)
     res.run_rule(rule_r13, prog, res)
+    res.run_rule(rule_r14, prog, res)
 
 
 _X = 'spyne/protocol/xml.py'
